@@ -488,8 +488,8 @@ class Check(PropertyCheck):
             "valid, ~20% one-byte/line mutations, ~10% token soup), 30% with a random segmentation; fn: the request and response "
             "heads, TE/CL values, bodies of the same grammar fed to single functions (model tie) and to both reference parsers. "
             "distinct = distinct case; non-trivial = at least one flow / a non-empty input.")
-    budget = {"quick": 8000, "thorough": 150000}
-    time_budget = {"quick": 22, "thorough": 480}
+    budget = {"quick": 6000, "thorough": 150000}
+    time_budget = {"quick": 15, "thorough": 480}
     fingerprints = ["mitmproxy.net.http.http1.read:_read_headers", "mitmproxy.net.http.http1.read:_read_request_line",
                     "mitmproxy.net.http.http1.read:_read_response_line", "mitmproxy.net.http.http1.read:expected_http_body_size",
                     "mitmproxy.net.http.http1.read:connection_close", "mitmproxy.net.http.http1.read:raise_if_http_version_unknown",
@@ -509,6 +509,10 @@ class Check(PropertyCheck):
                     "harness/common/refparsers.py (independent strict RFC 9112 parser) as the oracle; tied to its Lean twin `Ref` on every run"]
     parallel = True
     has_model = True
+
+    def setup(self, tier):
+        # the fork pool pays off for the thorough tier only; on a loaded machine it starves the quick tier
+        self.parallel = (tier == "thorough")
 
     # ---- translator ---------------------------------------------------------------------------------------------
     def translate(self):
